@@ -118,10 +118,12 @@ PLAN["C14"] = other(
 PLAN["C15"] = other(
     "Deductive: getValuesInInterval (start <= t <= end, order kept), intervalOverlapCheck (no/time threshold, "
     "boundaryInclusive), find (exact / substring, both tier classes: exactly the matching indices, in order) and "
-    "getNonEntries (exactly the positive-length unlabelled stretches of [0, maxTimestamp], ordered, in span) proved "
-    "for all inputs. Bounded: find with regular expressions, timestamps, getValuesInIntervals/AtPoints, "
-    "invertIntervalList, equality, validate on exhaustive small grids.",
-    "Queries agree with their definitions: four queries proved for all inputs, the rest on the stated bounded domain.",
+    "getNonEntries (exactly the positive-length unlabelled stretches of [0, maxTimestamp], ordered, in span) and "
+    "validate() of both tier classes in the non-raising modes (False exactly when an entry is invalid, out of span "
+    "or out of order - for arbitrary, not necessarily well-formed tiers) proved for all inputs. Bounded: find with "
+    "regular expressions, timestamps, getValuesInIntervals/AtPoints, invertIntervalList, equality, "
+    "Textgrid.validate and reportingMode='error' on exhaustive small grids.",
+    "Queries agree with their definitions: six queries proved for all inputs, the rest on the stated bounded domain.",
     ["c15_queries"])
 PLAN["C16"] = other(
     "Deductive: Wav._getIndexAtTime is proved sample-aligned and equal to width*round(t*rate) for the enumerated "
@@ -348,6 +350,13 @@ CANARIES = [
     {"name": "pdejitter-strict", "props": ["C14"], "file": PT, "target": PTC + ".dejitter",
      "old": "if my_math.lessThanOrEqual(abs(time - timeCompare), maxDifference)",
      "new": "if abs(time - timeCompare) < maxDifference"},
+    {"name": "validate-touching", "props": ["C15"], "file": IT, "target": ITC + ".validate",
+     "old": "if previousInterval and previousInterval.end > interval.start:",
+     "new": "if previousInterval and previousInterval.end >= interval.start:", "config": ["reportingMode=silence"]},
+    {"name": "pvalidate-overshoot", "props": ["C15"], "file": PT, "target": PTC + ".validate",
+     "old": "            if utils.checkIsOvershoot(point.time, self.maxTimestamp, errorReporter):\n                isValid = False",
+     "new": "            if utils.checkIsOvershoot(point.time, self.maxTimestamp, errorReporter):\n                pass",
+     "config": ["reportingMode=silence"]},
     {"name": "find-substr-swapped", "props": ["C15"], "file": "praatio/data_classes/textgrid_tier.py",
      "target": "praatio.data_classes.textgrid_tier.TextgridTier.find",
      "old": "if matchLabel in entry.label:", "new": "if entry.label in matchLabel:"},
